@@ -51,11 +51,50 @@ def _nodate(*a, **k):
     raise ExcRaised(Ref('builtin:ValueError'))
 
 
+class _Book(PyModel):
+    """openpyxl workbook as the reader uses it: sheetnames, book[name]._cells, defined_names."""
+
+    def __init__(self, sheets, names):
+        self.sheetnames = list(sheets)
+        self._sheets = sheets
+        self.defined_names = names
+
+    def __getitem__(self, name):
+        return self._sheets[name]
+
+
+class _Sheet(PyModel):
+    def __init__(self, cells):
+        self._cells = cells
+
+
+def _book(sheets, names, cached=None):
+    """sheets: {sheet: {coordinate: native constant | '=formula'}}; names: {name: 'Sheet!$A$1'}; cached: {'Sheet!A1': cached result}"""
+    import re
+    out = {}
+    for sname, cells in sheets.items():
+        d = {}
+        for coord, v in cells.items():
+            m = re.fullmatch(r'([A-Z]+)(\d+)', coord)
+            col = 0
+            for ch in m.group(1):
+                col = col * 26 + ord(ch) - 64
+            if isinstance(v, str) and v.startswith('='):
+                cell = Rec(coordinate=coord, data_type='f', value=v, cvalue=(cached or {}).get(f'{sname}!{coord}'))
+            else:
+                cell = Rec(coordinate=coord, data_type='b' if isinstance(v, bool) else ('n' if isinstance(v, (int, float)) else 's'), value=v, cvalue=None)
+            d[(int(m.group(2)), col)] = cell
+        out[sname] = _Sheet(dict(sorted(d.items())))
+    return _Book(out, {n: Rec(name=n, value=t, hidden=None) for n, t in (names or {}).items()})
+
+
 class Workbook:
-    def __init__(self, ctx, cells, models=None, world=None, compile_with='read_and_parse_dict'):
+    def __init__(self, ctx, cells=None, models=None, world=None, sheets=None, names=None, cached=None):
         self.ctx = ctx
         self.world = world if world is not None else World()
         self.world.max_depth = 150
+        self.world.budget = 3000000
+        self.world.call_counts = {}
         import sys
         if sys.getrecursionlimit() < 30000:
             sys.setrecursionlimit(30000)
@@ -65,9 +104,16 @@ class Workbook:
         self.models['ext:dateutil.parser.parse'] = _nodate
         self.models.update(models or {})
         mm = ctx.mod('model')
-        out = self._run(mm, {'d': dict(cells)}, 'c = ModelCompiler()\nreturn c.read_and_parse_dict(d)')
+        if sheets is not None:
+            # the xlsx path: Reader over a modelled openpyxl workbook, parse_archive (defined names, ranges), build_code
+            book = _book(sheets, names, cached)
+            self.models.setdefault('ext:openpyxl.load_workbook', lambda *a, **k: book)
+            self.models.setdefault('pkg:patch:openpyxl_WorksheetReader_patch', lambda *a, **k: None)
+            out = self._run(mm, {}, 'c = ModelCompiler()\nreturn c.read_and_parse_archive("witness.xlsx")')
+        else:
+            out = self._run(mm, {'d': dict(cells)}, 'c = ModelCompiler()\nreturn c.read_and_parse_dict(d)')
         if out.end != 'return' or not isinstance(out.value, Rec):
-            raise Unmodelled(f'read_and_parse_dict on the witness workbook ends in {out.end} {out.value!r}')
+            raise Unmodelled(f'compiling the witness workbook ends in {out.end} {out.value!r}')
         self.model = out.value
         self.evaluators = {}
 
@@ -88,6 +134,10 @@ class Workbook:
         """Outcome of evaluator.evaluate(addr)"""
         return self._run(self.ctx.mod('evaluator'), {'e': self.evaluator(key), 'a': addr}, 'return e.evaluate(a)')
 
+    def calls(self, module, function):
+        """How often the interpreter entered module.function so far in this world."""
+        return self.world.call_counts.get((module, function), 0)
+
     def value(self, addr, key='e'):
         out = self.evaluate(addr, key)
         if out.end == 'return':
@@ -100,3 +150,21 @@ class Workbook:
         out = self._run(self.ctx.mod('evaluator'), {'e': self.evaluator(key), 'a': addr, 'v': value}, 'return e.set_cell_value(a, v)')
         if out.end != 'return':
             raise Unmodelled(f'set_cell_value({addr!r}) ends in {out.end} {out.value!r}')
+
+    def set_model(self, addr, value):
+        out = self._run(self.ctx.mod('model'), {'m': self.model, 'a': addr, 'v': value}, 'return m.set_cell_value(a, v)')
+        if out.end != 'return':
+            raise Unmodelled(f'Model.set_cell_value({addr!r}) ends in {out.end} {out.value!r}')
+
+    def get(self, addr, key='e'):
+        out = self._run(self.ctx.mod('evaluator'), {'e': self.evaluator(key), 'a': addr}, 'return e.get_cell_value(a)')
+        return V.norm(out.value) if out.end == 'return' else (out.end, repr(out.value))
+
+    def evaluator_with(self, key, replace):
+        """A further Evaluator over the same model whose namespace maps the names in `replace` to other registered functions."""
+        src = 'ns = xl.FUNCTIONS.copy()\n' + ''.join(f'ns[{k!r}] = ns[{v!r}]\n' for k, v in replace.items()) + 'return Evaluator(m, ns)'
+        out = self._run(self.ctx.mod('evaluator'), {'m': self.model}, src)
+        if out.end != 'return' or not isinstance(out.value, Rec):
+            raise Unmodelled(f'Evaluator(model, namespace) ends in {out.end} {out.value!r}')
+        self.evaluators[key] = out.value
+        return out.value
